@@ -166,6 +166,21 @@ fn check_prog<G: CurveTag>(mut prog: crate::program::Program, ch: &mut Choices, 
         col.class("failing-external-rng");
     }
 
+    // degenerate external randomness (all bytes equal) is still the caller's randomness: the
+    // proof is a function of it like of any other
+    if mode != 2 && ch.chance(30) {
+        let c = [0u8, 0, 0xff, 1][ch.below(4)];
+        let a = run_prover::<G>(&prog, &ProveOpts { constant_rng: Some(c), ..Default::default() });
+        let b = run_prover::<G>(&prog, &ProveOpts { constant_rng: Some(c), ..Default::default() });
+        if a.proof.is_some() && a.bytes != b.bytes {
+            return Err(Failure::new("C09:not-reproducible", format!("two runs with the same (constant 0x{:02x}) external randomness give different proofs: the RNG is keyed with something other than the transcript, the blindings and the caller's randomness", c), pj("constant external RNG".into())));
+        }
+        if a.proof.is_some() && a.bytes == p0.bytes {
+            return Err(Failure::new("C09:rng-not-keyed-with-external-randomness", "a proof made with constant external randomness equals the one made with the seeded source".to_string(), pj("constant external RNG".into())));
+        }
+        col.class("constant-external-rng");
+    }
+
     // ---- 2. seed laws --------------------------------------------------------------------
     let p_same = if mode == 2 && n >= 2048 { None } else { Some(run_prover::<G>(&prog, &ProveOpts::default())) };
     if p_same.map(|p| p.bytes != p0.bytes).unwrap_or(false) {
@@ -685,6 +700,9 @@ pub fn run(tier: &str, seed: u64) -> i32 {
                 items.extend([(c, 4096, 0, 2), (c, 1000, 4100, 1), (c, 8, 0, 1025), (c, 3, 2, 2100), (c, 2048, 2048, 0), (c, 8200, 0, 1)]);
                 if c == Curve::ALL[(seed % 3) as usize] {
                     items.push((c, 16384, 0, 1));
+                }
+                if c == Curve::ALL[((seed + 1) % 3) as usize] {
+                    items.push((c, 5, 32_800, 0));
                 }
             }
         } else {
